@@ -36,7 +36,7 @@ from sim.common import (  # noqa: E402
 )
 
 TIERS = {
-    "quick": {"budget_s": 40, "max_runs": 200000, "det_samples": 24, "line_fraction": 0.4, "long_fraction": 0.0, "n_sweep": {"C12": 1500, "C13": 3000}},
+    "quick": {"budget_s": 50, "max_runs": 200000, "det_samples": 24, "line_fraction": 0.4, "long_fraction": 0.0, "n_sweep": {"C12": 1500, "C13": 3000}},
     "thorough": {"budget_s": 1500, "max_runs": 5000000, "det_samples": 200, "line_fraction": 0.4, "long_fraction": 0.03, "n_sweep": {"C12": 10 ** 9, "C13": 10 ** 9}},
 }
 
